@@ -43,6 +43,11 @@ pub(crate) struct InternalObserver<T> {
     #[cfg(cormacrelf_incremental_rs_verif)]
     on_update_handlers: RefCell<crate::verif_audit::DetHashMap<SubscriptionToken, OnUpdateHandler<T>>>,
     next_subscriber: Cell<SubscriptionToken>,
+    /// Tokens of the handlers that [run_all] has checked out of [on_update_handlers] while it
+    /// runs them; None when it is not running.
+    running: RefCell<Option<Vec<SubscriptionToken>>>,
+    /// Those of them that a handler unsubscribed in the meantime.
+    unsubscribed_while_running: RefCell<Vec<SubscriptionToken>>,
 }
 
 pub(crate) type WeakObserver = Weak<dyn ErasedObserver>;
@@ -124,7 +129,12 @@ impl<T: Value> ErasedObserver for InternalObserver<T> {
             Disallowed | Unlinked => Ok(()),
             Created | InUse => {
                 // delete from the list in either case
-                let removed = self.on_update_handlers.borrow_mut().remove(&token);
+                let removed = self
+                    .on_update_handlers
+                    .borrow_mut()
+                    .remove(&token)
+                    .map(|_| ())
+                    .or_else(|| self.unsubscribe_checked_out(token));
 
                 match self.state.get() {
                     Created => {
@@ -146,9 +156,18 @@ impl<T: Value> ErasedObserver for InternalObserver<T> {
         }
     }
     fn run_all(&self, input: &Node, node_update: NodeUpdateDelayed, now: StabilisationNum) {
-        let mut handlers = self.on_update_handlers.borrow_mut();
+        /* A handler may subscribe to, or unsubscribe from, this very observer (a one-shot
+        subscription unsubscribes itself). Check the handlers out of the cell while they run, so
+        that those calls do not find it borrowed. */
+        let mut handlers = std::mem::take(&mut *self.on_update_handlers.borrow_mut());
+        self.running
+            .replace(Some(handlers.keys().copied().collect()));
         for (id, handler) in handlers.iter_mut() {
             tracing::trace!("running update handler with id {id:?}");
+            if self.unsubscribed_while_running.borrow().contains(id) {
+                // unsubscribed by a handler that ran before it: no callback after unsubscribe
+                continue;
+            }
             /* We have to test [state] before each on-update handler, because an on-update
             handler might disable its own observer, which should prevent other on-update
             handlers in the same observer from running. */
@@ -156,6 +175,15 @@ impl<T: Value> ErasedObserver for InternalObserver<T> {
                 Created | Unlinked => panic!(),
                 Disallowed => (),
                 InUse => handler.run(input, node_update, now),
+            }
+        }
+        self.running.replace(None);
+        let gone = self.unsubscribed_while_running.take();
+        // handlers subscribed in the meantime are already in the cell; put the others back
+        let mut live = self.on_update_handlers.borrow_mut();
+        for (id, handler) in handlers {
+            if !gone.contains(&id) {
+                live.insert(id, handler);
             }
         }
     }
@@ -171,6 +199,19 @@ impl<T: Value> Debug for InternalObserver<T> {
 }
 
 impl<T: Value> InternalObserver<T> {
+    /// [unsubscribe] called from inside a handler of this observer: the handlers are checked
+    /// out by [run_all], which will skip and drop the one with this token.
+    fn unsubscribe_checked_out(&self, token: SubscriptionToken) -> Option<()> {
+        let running = self.running.borrow();
+        let tokens = running.as_ref()?;
+        let mut gone = self.unsubscribed_while_running.borrow_mut();
+        if tokens.contains(&token) && !gone.contains(&token) {
+            gone.push(token);
+            Some(())
+        } else {
+            None
+        }
+    }
     pub(crate) fn incr_state(&self) -> Option<Rc<State>> {
         self.observing.node.state_opt()
     }
@@ -183,6 +224,8 @@ impl<T: Value> InternalObserver<T> {
             on_update_handlers: Default::default(),
             weak_self: weak_self.clone(),
             next_subscriber: SubscriptionToken(id, 1).into(),
+            running: None.into(),
+            unsubscribed_while_running: Vec::new().into(),
         })
     }
     pub(crate) fn try_get_value(&self) -> Result<T, ObserverError> {
